@@ -28,11 +28,15 @@ extern LibAlloc g_lib;
 
 // ------------------------------------------------------------ caller's tree allocator (tracking)
 struct TreeAlloc {
-  std::unordered_map<void *, int> live; // block -> size
+  std::unordered_map<void *, int> live;  // block -> size
+  std::unordered_map<void *, int> owner; // block -> epoch (parse) that allocated it
+  int epoch = 0;                          // current parse; tree_free accepts only blocks of this epoch
   long n_alloc = 0, n_free = 0, n_free_null = 0;
-  long n_bad_free = 0; // free of a block that is not live (foreign or double)
+  long n_bad_free = 0; // free of a block that is not live (foreign or double) or belongs to another parse
   std::string bad;
   void reset() { *this = TreeAlloc(); }
+  void newEpoch() { epoch++; n_alloc = n_free = n_free_null = n_bad_free = 0; bad.clear(); }
+  long liveOf(int e) const { long n = 0; for (auto &p : owner) if (p.second == e) n++; return n; }
 };
 extern TreeAlloc g_tree;
 void *tree_alloc(int n);
@@ -82,6 +86,8 @@ struct Outcome {
   long termcb_calls = 0;
   std::string t_bad;
   yaep_verif_info hook;
+  yaep_tree_node *rootptr = nullptr; // valid only when the tree was not freed
+  int epoch = 0;
   std::string str() const;
   // the tuple the properties C09/C14/C16 compare
   std::string tupleStr() const;
@@ -121,8 +127,13 @@ struct ParseOpts {
   bool cost_mode_own = true; // derive own cost by subtraction when cf.cost
   long den_limit = 5000;
   bool free_tree = true;
-  bool walk_after_grammar_free = false; // C13: destroy the grammar, walk again, then free the tree
+  bool keep_tracking = false; // do not reset the tree allocator: start a new epoch (several live trees)
 };
+// every block reachable from root: node blocks and name blocks; counts distinct TERM nodes
+void collectBlocks(yaep_tree_node *root, std::set<void *> &blocks, long &nTerm);
+long termcbCalls();
+void resetTermcb();
+void termcbFn(yaep_term *);
 Outcome runParse(Binding &b, const std::vector<int> &codes, const Conf &cf, const ParseOpts &po = ParseOpts());
 
 // analyse a tree (exposed for C13)
